@@ -284,6 +284,17 @@ def run(chk):
         if kz == 0:
             vals["gaussian_mi"] = float(gaussian_mutual_information(X, Y))
             vals["gaussian_cmi_empty_Z"] = float(g(X, Y, np.zeros((N, 0))))
+        if len(cases) % 4 == 0:
+            # container independence: DataFrame blocks (pandas reductions default to other conventions than NumPy's), Fortran order
+            import pandas as pd
+            fX, fY = pd.DataFrame(X), pd.DataFrame(Y)
+            if kz == 0:
+                vals["gaussian_mi[DataFrame X, Y]"] = float(gaussian_mutual_information(fX, fY))
+                vals["gaussian_cmi[DataFrame X, Y; Z=None]"] = float(g(fX, fY, None))
+            else:
+                vals["gaussian_cmi[DataFrame X, Y, Z]"] = float(g(fX, fY, pd.DataFrame(Z)))
+            vals["gaussian_cmi[Fortran order]"] = float(g(np.asfortranarray(X), np.asfortranarray(Y), None if kz == 0 else np.asfortranarray(Z)))
+            chk.count("presentations.dataframe_and_fortran")
         v = vals["gaussian_cmi"]
         fail = None
         tol = ftol(ref)
